@@ -111,13 +111,9 @@ func execC07Real(a c07RealArgs) CaseOut {
 		return out
 	}
 	defer os.RemoveAll(dir)
-	port := freePort()
-	d, err := startDaemon(dir, "v", nil, "--tcp-listener", fmt.Sprintf("port=%d", port), "bindaddr=127.0.0.1")
+	d, port, err := startDaemonListening(dir, "v", nil)
 	if err != nil {
 		out.violate("harness:c07r-daemon", "%v", err)
-		if d != nil {
-			d.kill()
-		}
 		return out
 	}
 	defer d.kill()
